@@ -22,6 +22,15 @@ func dirListing(dir string) string {
 	parts := []string{}
 	for _, e := range entries {
 		n := e.Name()
+		if e.IsDir() {
+			// a sub directory and (one level of) its files
+			parts = append(parts, n+"=D")
+			sub, _ := os.ReadDir(filepath.Join(dir, n))
+			for _, se := range sub {
+				parts = append(parts, n+"/"+se.Name()+"=O0")
+			}
+			continue
+		}
 		data, _ := os.ReadFile(filepath.Join(dir, n))
 		kind := "O9"
 		switch {
@@ -94,6 +103,16 @@ func caseRepoHistory(r *rng.R, n int) string {
 		os.WriteFile(filepath.Join(dir, f), []byte("text"), 0600)
 		ops = append(ops, "plant:"+f)
 		outs = append(outs, "ok|"+dirListing(dir))
+	}
+	if r.Chance(12) {
+		// a sub directory with shared drivers: a case may name a file inside it — or, by mistake, the directory itself
+		os.Mkdir(filepath.Join(dir, "common"), 0700)
+		os.WriteFile(filepath.Join(dir, "common", "drv.a"), []byte("text"), 0600)
+		os.WriteFile(filepath.Join(dir, "common", "lib.a"), []byte("text"), 0600)
+		ops = append(ops, "plantdir:common")
+		outs = append(outs, "ok|"+dirListing(dir))
+		drivers = []string{"common", "common/drv.a", "common/drv.a", "common/lib.a", "a.a", "shared.a"}
+		count("caserepo.subdir")
 	}
 	for i := 0; i < n; i++ {
 		res := "ok"
